@@ -57,6 +57,7 @@ Lemma good_mark_seen a : good (mark_seen a). Proof. apply good_wupd. Qed.
 Lemma good_add_link a : good (add_link a). Proof. apply good_wupd. Qed.
 Lemma good_add_ref a r : good (add_ref a r). Proof. apply good_wupd. Qed.
 Lemma good_add_stab a b h : good (add_stab a b h). Proof. apply good_wupd. Qed.
+Lemma good_add_dlink a : good (add_dlink a). Proof. apply good_wupd. Qed.
 Lemma good_sdev tol t : good (sdev tol t).
 Proof. unfold sdev. destruct (tol (WS t)); [apply good_wupd | apply good_err]. Qed.
 Lemma good_xdev tol x : good (xdev tol x).
@@ -64,7 +65,7 @@ Proof. unfold xdev. destruct (tol (WX x)); [apply good_wupd | apply good_err]. Q
 Lemma good_xdevif tol c x : good (xdevif tol c x).
 Proof. unfold xdevif. destruct c; [apply good_xdev | apply good_ret]. Qed.
 
-Hint Resolve good_add_soft good_add_wtags good_add_stags good_add_sum good_mark_seen good_add_link good_add_ref good_add_stab
+Hint Resolve good_add_soft good_add_wtags good_add_stags good_add_sum good_mark_seen good_add_link good_add_ref good_add_stab good_add_dlink
   good_sdev good_xdev good_xdevif good_add_ext good_ret good_err good_wl good_wguard good_wget good_wupd good_wexts : gooddb.
 
 (* structural descent through a walker body *)
@@ -187,6 +188,11 @@ Proof.
   intros fuel f H. unfold walk_ok in H. destruct (walk wtolerant fuel f) as [r| |]; try discriminate.
   exists r. split; [reflexivity|]. apply extents_ok_sound. exact H.
 Qed.
+
+(* the boolean, given the result of the tolerant walk (Model/WalkJudgeTie.v evaluates the right-hand side) *)
+Lemma walk_ok_of_result : forall fuel f r, walk wtolerant fuel f = Ok r ->
+  walk_ok fuel f = extents_ok (blen f) (wr_eof r) (plain (wr_extents r)).
+Proof. intros fuel f r H. unfold walk_ok. rewrite H. reflexivity. Qed.
 
 (* ================================================================== 3. more fuel never changes an accepted answer *)
 Definition mle {A} (m1 m2 : W A) : Prop := forall st r, m1 st = WOk r -> m2 st = WOk r.
